@@ -5,7 +5,7 @@
 Require Import String.
 Require Import List NArith Bool PeanoNat Lia ZifyBool ZifyN.
 Require Import KV.Parser.Utf8 KV.Parser.Unicode KV.Parser.Keywords KV.Parser.Scanners KV.Parser.Grammar KV.Parser.Run.
-Require Import KV.Parser.Utf8Proofs KV.Parser.ScannerProofs KV.Parser.GrammarProofs KV.Parser.RoundTrip.
+Require Import KV.Parser.Utf8Proofs KV.Parser.ScannerProofs KV.Parser.GrammarProofs KV.Parser.RoundTrip KV.Parser.RoundTrip2.
 Import ListNotations.
 Open Scope N_scope.
 
@@ -157,6 +157,18 @@ Theorem C16_roundtrip_numeric :
 Proof. exact numeric_literal_roundtrip. Qed.
 Print Assumptions C16_roundtrip_numeric.
 
+(* prefixed names: prefix label (PN_CHARS_BASE (PN_CHARS | .)* not ending in a dot, or empty), `:`, and a local part
+   of ordinary characters, inner dots, %HH and backslash escapes (PnameTok); blank node labels (BlankTok) *)
+Theorem C16_roundtrip_prefixed_name :
+  forall w tok rest, LayoutC w -> PnameTok tok -> Valid rest -> pn_stop rest -> prefixed_name (w ++ tok ++ rest) = Ok (tok, rest).
+Proof. exact prefixed_name_roundtrip. Qed.
+Print Assumptions C16_roundtrip_prefixed_name.
+
+Theorem C16_roundtrip_blank_node :
+  forall w tok rest, LayoutC w -> BlankTok tok -> Valid rest -> blank_stop rest -> blank_node (w ++ tok ++ rest) = Ok (tok, rest).
+Proof. exact blank_node_roundtrip. Qed.
+Print Assumptions C16_roundtrip_blank_node.
+
 (* the object-term alternative chain (quoted triple, variable, IRI, blank node, literal, ...) returns the printed
    term unchanged, for every nesting fuel >= 1 *)
 Theorem C16_roundtrip_term :
@@ -174,8 +186,8 @@ Print Assumptions C16_roundtrip_term.
 
 (* C16_roundtrip_partial.  The full statement of the design,
      forall ast layout, wf ast -> parse (print layout ast) = Ok (ast, "")
-   for triples statements, group graph patterns and SELECT, is NOT proved; prefixed names, blank nodes, exponent
-   forms of numbers, literals with language tag / datatype and long strings are not proved at token level either.
+   for triples statements, group graph patterns and SELECT, is NOT proved; exponent forms of numbers, literals with
+   language tag / datatype and long strings are not proved at token level either.
    They are decided on generated trees under ~10 layouts by the tree stream of checks/c16.py (implementation vs
    Spec tree vs this model), not by a theorem. *)
 
@@ -212,6 +224,18 @@ Proof.
   split; [apply (numtok [45] [49; 50] [46; 53; 48]); [auto|repeat constructor|right; exists [53; 48]; repeat split; [discriminate|repeat constructor]|left; discriminate]|].
   apply (LC_comment [32] [32; 99] 10 [9]); [apply (W_cons 32 []); [reflexivity|reflexivity|constructor]|repeat constructor; lia
     |apply valid_ascii; repeat constructor; lia|now left|apply LC_end; apply (W_cons 9 []); [reflexivity|reflexivity|constructor]].
+Qed.
+
+Example C16_example_tokens2 :
+  PnameTok (bs "ex:a.b%2F\-c") /\ BlankTok (bs "_:b1.x").
+Proof.
+  split.
+  - apply (pnametok (bs "ex") [LOrd 97; LDot; LOrd 98; LPct 50 70; LEsc 45; LOrd 99]).
+    + apply (pp_label 101 [120]); [repeat constructor|reflexivity|reflexivity|repeat constructor; now right|cbn; lia].
+    + cbn. repeat split; reflexivity.
+    + cbn. reflexivity.
+  - apply (blanktok 98 [49; 46; 120]); [repeat constructor|reflexivity| |cbn; lia].
+    repeat constructor; (now right) || (now left).
 Qed.
 
 Example C16_example_valid : Valid (bs "SELECT * WHERE { ?s ?p 'x' }").
